@@ -38,6 +38,14 @@ std::string gen_text(Src &s, int tgt) {
     if (s.boolean()) return s.rest();                       // raw bytes (coverage-guided fuzzing works on these)
     const auto &d = dict(tgt);
     std::string t;
+    if (tgt == 6 && g_fixed_target < 0 && s.chance(1, 60)) {     // (not under libFuzzer, whose own crash handler cannot run on an exhausted stack)
+        // sections nested far deeper than any real configuration (the parser recurses per section)
+        size_t depth = (size_t)s.pick({1, 1, 1}) == 0 ? (size_t)s.range(200, 400) : (size_t)s.range(2500, 6000);
+        bool close = s.boolean();
+        for (size_t i = 0; i < depth; i++) t += "<Sec x>\n";
+        if (close) for (size_t i = 0; i < depth; i++) t += "</Sec>\n";
+        return t;
+    }
     if (tgt == 6 && s.chance(1, 4)) {
         // nearly valid document: whole valid lines (so that the parser gets deep: open and nested
         // sections, close tags), cut off anywhere and with at most one damaged byte
@@ -169,7 +177,14 @@ void run_target(int tgt, const std::string &text, unsigned cfg, Src &s, Ctx &c) 
             if (defh) q->setdefhandler(q, cb_touch);
             std::string path = g_dir + "/vf-apache.conf";
             dirty_stack();
-            int n = q->parse(q, path.c_str(), (uint8_t)flags);
+            // nesting depth of the document (open minus close tags, roughly): the parser recurses once per level
+            size_t depth = 0, maxdepth = 0;
+            for (size_t i = 0; i < text.size(); i++) if (text[i] == '<' && (i == 0 || text[i - 1] == '\n' || text[i - 1] == ' ' || text[i - 1] == '\t')) { if (i + 1 < text.size() && text[i + 1] == '/') { if (depth) depth--; } else { depth++; if (depth > maxdepth) maxdepth = depth; } }
+            int n = 0;
+            if (maxdepth > 1000) {
+                int sg = guarded([&] { n = q->parse(q, path.c_str(), (uint8_t)flags); }, 20.0);
+                if (sg) c.fail(CRASH, "robust:qaconf:nesting-depth", "qaconf parse of a document with sections nested %zu deep died with signal %d: the parser recurses once per nesting level with a line buffer on the stack, and the stack is exhausted", maxdepth, sg);
+            } else n = q->parse(q, path.c_str(), (uint8_t)flags);
             const char *em = q->errmsg(q);
             bool hasmsg = em != nullptr && em[0] != '\0';
             q->free(q);
@@ -238,6 +253,17 @@ bool vf_enumerate(Ctx &c, EnumStats &st) {
             for (size_t i = 0; i < alen; i++) { x.push_back(a.alpha[i]); rec(d + 1); x.pop_back(); }
         };
         rec(0);
+    }
+    // references of enormous length (the name between ${ and } is copied to scratch memory): stack use must
+    // not grow with the input
+    if (shard == 0) {
+        for (size_t mib : {(size_t)1, (size_t)12}) {
+            std::string x = "a=1\nb=${"; x.append(mib << 20, 'n'); x += "}\nc=${a}\n";
+            c.trace = strf("enumerated: qconfig_parse_str with an undefined ${} reference of %zu MiB", mib);
+            Src s(zero, sizeof zero);
+            run_target(4, x, 0, s, c);
+            st.evaluations++; st.nontrivial++;
+        }
     }
     st.states = st.evaluations;
     st.extra["max_length"] = (uint64_t)(c.tier ? 7 : 6);
